@@ -72,6 +72,13 @@ def run(allinput, splicers=None, outdirs=None, write_version=False, deep=True):
 
     U.open = mem_open
     U.print = lambda *a, **k: None
+    # Each run models a fresh process: Shroud keeps its destructor tables in class attributes that are
+    # never reset (observation F9 in DESIGN.md, property C07), so they are emptied here.
+    wrapc.Wrapc.capsule_code = {}
+    wrapc.Wrapc.capsule_order = []
+    wrapc.Wrapc.capsule_include = {}
+    wrapp.Wrapp.capsule_code = {}
+    wrapp.Wrapp.capsule_order = []
     try:
         typemap.initialize()
         newlibrary = ast.create_library_from_dictionary(allinput)
